@@ -66,10 +66,13 @@ def _subs(obj, H):
     return []
 
 
-def judge_single_panel(ctx, obj, ax, opts, dmc, dfn, key, H):
-    """Compare the artists on `ax` with the object's state."""
+def judge_single_panel(ctx, obj, ax, opts, dmc, dfn, key, H, old_artists=()):
+    """Compare the artists on `ax` (those this call added, when the caller's axes already held some) with the object's state."""
     lines = {}
+    old_ids = {id(a) for a in old_artists}
     for ln in ax.get_lines():
+        if id(ln) in old_ids:
+            continue
         lines.setdefault(classify_line(ln), []).append(ln)
     f = np.asarray(obj.frequency, float)
     subs = _subs(obj, H)
@@ -139,7 +142,7 @@ def judge_single_panel(ctx, obj, ax, opts, dmc, dfn, key, H):
         # fn band
         if opts.get("plot_frequency_std") and not diffuse:
             lo, hi = obj.nth_std_fn_frequency(-1, dfn), obj.nth_std_fn_frequency(+1, dfn)
-            polys = [p for p in ax.patches if hasattr(p, "get_xy")]
+            polys = [p for p in ax.patches if hasattr(p, "get_xy") and id(p) not in old_ids]
             ok = False
             for p in polys:
                 xy = np.asarray(p.get_xy(), float)
@@ -226,6 +229,7 @@ def op_plot(ctx, st, op, prop, info):
     before = semantic_snap(obj)
     before_recs = semantic_snap(recs) if recs is not None else None
     captured, exc, out = [], None, None
+    old_artists = []
     old_display = PP.display
     PP.display = lambda s: captured.append(s)
     fault = op.get("fault")
@@ -239,7 +243,19 @@ def op_plot(ctx, st, op, prop, info):
                 if cf:
                     cf.__enter__()
                 try:
-                    if fn == "single_panel":
+                    if fn == "single_panel" and op.get("ax"):
+                        if getattr(st, "user_ax", None) is None:
+                            from matplotlib.figure import Figure
+                            st.user_fig = Figure(figsize=(3.75, 2.5), dpi=100)
+                            st.user_ax = st.user_fig.subplots()
+                        else:
+                            ctx.probe("plot_on_callers_axes_again")
+                        if op["ax"] == "cleared":
+                            st.user_ax.clear()
+                        old_artists = list(st.user_ax.get_lines()) + list(st.user_ax.patches)
+                        ret = H.plot_single_panel_hvsr_curves(obj, distribution_mc=dmc, distribution_fn=dfn, ax=st.user_ax, **opts)
+                        out = (st.user_fig, ret)
+                    elif fn == "single_panel":
                         out = H.plot_single_panel_hvsr_curves(obj, distribution_mc=dmc, distribution_fn=dfn, **opts)
                     elif fn == "summary_table":
                         out = H.summarize_hvsr_statistics(obj, distribution_mc=dmc, distribution_fn=dfn)
@@ -282,7 +298,10 @@ def op_plot(ctx, st, op, prop, info):
                 ctx.probe("plot_judged_" + fn)
                 if fn == "single_panel":
                     fig, ax = out
-                    judge_single_panel(ctx, obj, ax, opts, dmc, dfn, key, H)
+                    if op.get("ax"):
+                        ctx.check(ax is st.user_ax, "returns_callers_axes", "the function did not return the axes it was given", key=key)
+                        key = {**key, "ax": op["ax"]}
+                    judge_single_panel(ctx, obj, ax, opts, dmc, dfn, key, H, old_artists=old_artists)
                 elif fn == "summary_table":
                     judge_table(ctx, obj, captured, None, dmc, dfn, key, H)
                 elif fn == "pre_post":
